@@ -125,3 +125,89 @@ func TestStreamingManyProducers(t *testing.T) {
 		}
 	})
 }
+
+// TestStreamingSeveralFilesAtOnce: several STL files are written at the same time in one process - streamed
+// (ToSTL) and saved in one go (SaveSTL), a program that exports its parts in parallel - and one file is
+// streamed from INSIDE the renderer of another (a renderer that writes a sub-part on the way). Every
+// streamed file must have the bytes SaveSTL writes for the same triangles on its own.
+type nesting struct {
+	mesh  []*sdf.Triangle3
+	inner []*sdf.Triangle3
+	path  string
+}
+
+func (n nesting) Info(sdf.SDF3) string { return "nesting" }
+func (n nesting) Render(_ sdf.SDF3, out sdf.Triangle3Writer) {
+	half := len(n.mesh) / 2
+	out.Write(n.mesh[:half])
+	if n.path != "" {
+		render.ToSTL(nil, n.path, scripted{n.inner, []int{7}})
+	}
+	out.Write(n.mesh[half:])
+	out.Close()
+}
+
+func TestStreamingSeveralFilesAtOnce(t *testing.T) {
+	rec := ev.Get()
+	rapid.Check(t, func(t *rapid.T) {
+		dir := scratch(t)
+		k := rapid.IntRange(2, 6).Draw(t, "files")
+		nested := rapid.Bool().Draw(t, "one-file-written-inside-a-renderer")
+		meshes := make([][]*sdf.Triangle3, k+1)
+		id := 0
+		for i := range meshes {
+			n := rapid.SampledFrom([]int{700, 60, 300, 2000, 81, 5}).Draw(t, fmt.Sprintf("f%d.triangles", i))
+			for j := 0; j < n; j++ {
+				x, y := float64(id%512), float64(id/512)
+				meshes[i] = append(meshes[i], &sdf.Triangle3{{X: x, Y: y, Z: float64(i)}, {X: x + 1, Y: y, Z: 0}, {X: x, Y: y + 1, Z: 1}})
+				id++
+			}
+		}
+		want := make([][]byte, k+1)
+		for i, m := range meshes {
+			p := filepath.Join(dir, fmt.Sprintf("atonce-ref%d.stl", i))
+			os.Remove(p)
+			if err := render.SaveSTL(p, m); err != nil {
+				t.Fatalf("SaveSTL: %v", err)
+			}
+			want[i], _ = os.ReadFile(p)
+		}
+		paths := make([]string, k+1)
+		for i := range paths {
+			paths[i] = filepath.Join(dir, fmt.Sprintf("atonce-%d.stl", i))
+			os.Remove(paths[i])
+		}
+		var wg sync.WaitGroup
+		for i := 0; i < k; i++ {
+			wg.Add(1)
+			go func(i int) {
+				defer wg.Done()
+				switch {
+				case i == 0 && nested:
+					render.ToSTL(nil, paths[0], nesting{meshes[0], meshes[k], paths[k]})
+				case i%3 == 2:
+					render.SaveSTL(paths[i], meshes[i])
+				default:
+					render.ToSTL(nil, paths[i], scripted{meshes[i], []int{3, 1, 5}})
+				}
+			}(i)
+		}
+		wg.Wait()
+		rec.Case(true, ev.Key("at-once", k, nested, id), fmt.Sprintf("at-once:files=%d", k), fmt.Sprintf("at-once:nested=%v", nested))
+		last := k
+		if nested {
+			last = k + 1
+		}
+		for i := 0; i < last; i++ {
+			got, err := os.ReadFile(paths[i])
+			if err != nil {
+				rec.Violation(t, "ToSTL:several-files-at-once:file-missing", "%d files written at once (nested=%v): file %d: %v", k, nested, i, err)
+				return
+			}
+			if string(got) != string(want[i]) {
+				rec.Violation(t, "ToSTL:several-files-at-once:bytes-differ-from-SaveSTL", "%d files written at once (nested=%v): file %d (%d triangles) has %d bytes that differ from the %d bytes SaveSTL writes for the same triangles on its own", k, nested, i, len(meshes[i]), len(got), len(want[i]))
+				return
+			}
+		}
+	})
+}
